@@ -2718,7 +2718,7 @@ class StateEngine(object):
             retry_timeout = context["State"].get("RetryTimeout", 0)
             self.event_dispatcher.set_timeout(asl_state_Parallel_delegate, retry_timeout)
 
-        def get_start_index(context):
+        def get_start_index(context, entering_map=False):
             """
             Boilerplate to retrieve the start index of the Map ItemProcessor or
             Iterator. This is used in the implementation of MaxConcurrency. The
@@ -2728,12 +2728,21 @@ class StateEngine(object):
             "Range" field, if present, holds the index of the start of the next
             block to be processed. The "Branch" metadata is a list so we can
             handle the case of nested Map and Parallel states.
+
+            If entering_map is set the event represents the Map state itself
+            rather than one of its iterations. In that case the top of the
+            "Branch" stack only belongs to this Map state if it is the marker
+            that is added when re-entering it to process the next block (which
+            has no "Index"), otherwise it belongs to an enclosing Map/Parallel
+            state and this Map state is being entered for the first time.
             """
             start = 0
             context_state = context["State"]
             if "Branch" in context_state and len(context_state["Branch"]):
-                iterator_range = context_state["Branch"][-1].get("Range", "0:0")
-                start = int(iterator_range.split(":")[0])
+                branch_info = context_state["Branch"][-1]
+                if not (entering_map and "Index" in branch_info):
+                    iterator_range = branch_info.get("Range", "0:0")
+                    start = int(iterator_range.split(":")[0])
 
             return start
 
@@ -2842,7 +2851,7 @@ class StateEngine(object):
                 if length and not "Branch" in context_state:
                     context_state["Branch"] = []
 
-                start = get_start_index(context)
+                start = get_start_index(context, entering_map=True)
                 if length:
                     if start == 0:
                         if len(context_state["Branch"]) > 0:
@@ -3017,7 +3026,7 @@ class StateEngine(object):
             the "start" index to ensure we only set the RetryTimeout for
             the first "batch".
             """
-            if get_start_index(context) == 0:
+            if get_start_index(context, entering_map=True) == 0:
                 retry_timeout = context["State"].get("RetryTimeout", 0)
             else:
                 retry_timeout = 0
@@ -3395,7 +3404,8 @@ class StateEngine(object):
         set we will re-enter the Map state, possibly several times, to process
         the next batch of items so again we want to suppress the history update.
         """
-        reentered_map = state_type == "Map" and get_start_index(context) != 0
+        reentered_map = (state_type == "Map" and
+                         get_start_index(context, entering_map=True) != 0)
         if not context["State"].get("RetryCount") and not reentered_map:
             self.update_execution_history(
                 state_machine,
